@@ -312,3 +312,14 @@ package codegen
 //@   ensures [generator] le32(result, 8) == int(b.generator)
 //@   ensures [length] len(result) == 4*(5 + wsum(b.capabilities, len(b.capabilities)) + wsum(b.extensions, len(b.extensions)) + wsum(b.extInstImports, len(b.extInstImports)) + ite(b.memoryModel != nil, len(b.memoryModel.Words) + 1, 0) + wsum(b.entryPoints, len(b.entryPoints)) + wsum(b.executionModes, len(b.executionModes)) + wsum(b.debugStrings, len(b.debugStrings)) + wsum(b.debugNames, len(b.debugNames)) + wsum(b.annotations, len(b.annotations)) + wsum(b.types, len(b.types)) + wsum(b.globalVars, len(b.globalVars)) + wsum(b.functions, len(b.functions)))
 //@   nopanic
+//
+// ---- statement-tree walkers descend into every nested block -------------------------------
+// (type-derived: for the statement handled by one iteration every field of type
+// Block of every statement kind is passed to the recursive call; see ir/zz_verif_contracts.go)
+//
+//@ func (*Backend).collectGlobalVarsFromStatements
+//@   mode bv
+//@   tags C02 C17
+//@   ghostcall collectGlobalVarsFromStatements visitedBlock
+//@   traverse stepmark 1 stmts ir.Block visitedBlock($)
+//
